@@ -73,7 +73,8 @@ pub fn reply_obs(r: &Result<QueryReply, QueryError>) -> Value {
         Err(QueryError::Generic { message }) => json!({"t": "err", "c": "generic", "msg": message}),
         Err(QueryError::NotFound(nf)) => json!({"t": "err", "c": "notfound", "msg": nf.got}),
         Err(QueryError::Conformance(c)) => json!({"t": "err", "c": "conformance",
-            "left": parts_json(&c.left), "right": parts_json(&c.right), "suggestions": c.suggestions}),
+            "left": parts_json(&c.left), "right": parts_json(&c.right), "suggestions": c.suggestions,
+            "suggestions_cp": c.suggestions.iter().map(|s| text(s)).collect::<Vec<_>>()}),
     }
 }
 
